@@ -140,6 +140,9 @@ def fault_space(s):
                 out.append({"t": "replace", "obj": n, "path": pl, "r": ri})
             if path[-1][0] == "k":
                 out.append({"t": "remove", "obj": n, "path": pl})
+        for ri in range(len(REPL)):
+            # the whole value of the indirect object (e.g. `n 0 obj n 0 R endobj`, or a reference back to a referrer)
+            out.append({"t": "whole", "obj": n, "r": ri})
         if W.is_stream(v):
             for i in range(8):
                 out.append({"t": "payload", "obj": n, "how": "truncate", "i": i})
@@ -183,6 +186,18 @@ def apply_fault(s, f):
             return None
         o2 = dict(objs)
         o2[f["obj"]] = _set(objs[f["obj"]], path, copy.deepcopy(new))
+        return SD.write(s, o2)
+    if f["t"] == "whole":
+        new = REPL[f["r"]]
+        if new == "SELF":
+            new = W.R(f["obj"])
+        elif new == "REFERRER":
+            m = referrer(s, f["obj"])
+            if m is None:
+                return None
+            new = W.R(m)
+        o2 = dict(objs)
+        o2[f["obj"]] = copy.deepcopy(new)
         return SD.write(s, o2)
     if f["t"] == "remove":
         path = tuple(tuple(p) for p in f["path"])
@@ -359,6 +374,8 @@ def describe(case):
     f = case["fault"]
     if f["t"] == "replace":
         return "seed %s object %d path %s <- %s" % (case["seed"], f["obj"], _fmt_path(f["path"]), REPL_NAMES[f["r"]])
+    if f["t"] == "whole":
+        return "seed %s object %d whole value <- %s" % (case["seed"], f["obj"], REPL_NAMES[f["r"]])
     if f["t"] == "remove":
         return "seed %s object %d key %s removed" % (case["seed"], f["obj"], _fmt_path(f["path"]))
     if f["t"] == "payload":
@@ -472,7 +489,7 @@ def run_shard(spec, ctx):
         # faults are sampled with a seeded PRNG
         def always(c):
             f = c["fault"]
-            return f["t"] in ("payload", "lzwcode") or (f["t"] == "replace" and REPL[f["r"]] in ("SELF", "REFERRER") or
+            return f["t"] in ("payload", "lzwcode", "whole") or (f["t"] == "replace" and REPL[f["r"]] in ("SELF", "REFERRER") or
                                                           (f["t"] == "replace" and f["r"] == 14))
         fixed = [i for i, c in enumerate(cases) if always(c)]
         rest = [i for i, c in enumerate(cases) if not always(c)]
